@@ -4,12 +4,14 @@ import DustVerif.Model.HistOps
     refine the DDS instance automaton for every received change, whatever the outcome of the change
     (stored, filtered, rejected); the double application of `update_state` inside `add_reader_change`
     (before the filters and again on insertion) is harmless.
-    The view_state part of the property FAILS on the code as it is (finding D28): witnesses below. -/
+    The view_state is part of the automaton: NEW for a new instance and after a rebirth, NOT_NEW after the
+    application has read samples of the instance (the pre-repair behaviour, finding D28, is kept as a witness). -/
 namespace DustVerif.Hist
 
-/-- the DDS instance automaton: instance_state × disposed_generation_count × no_writers_generation_count -/
+/-- the DDS instance automaton: instance_state × view_state × disposed_generation_count × no_writers_generation_count -/
 structure Life where
   st : IState
+  viewNew : Bool
   dgc : Int
   nwgc : Int
 deriving DecidableEq, Repr
@@ -21,16 +23,16 @@ def lifeStep (l : Life) (k : Kind) : Life :=
   | .alive, .disposed => { l with st := .disposed }
   | .alive, .disposedUnregistered => { l with st := .disposed }
   | .alive, .unregistered => { l with st := .noWriters }
-  | .disposed, .alive => { l with st := .alive, dgc := l.dgc + 1 }
-  | .noWriters, .alive => { l with st := .alive, nwgc := l.nwgc + 1 }
+  | .disposed, .alive => { l with st := .alive, dgc := l.dgc + 1, viewNew := true }
+  | .noWriters, .alive => { l with st := .alive, nwgc := l.nwgc + 1, viewNew := true }
   | _, _ => l
 
-def Inst.life (i : Inst) : Life := { st := i.st, dgc := i.dgc, nwgc := i.nwgc }
+def Inst.life (i : Inst) : Life := { st := i.st, viewNew := i.viewNew, dgc := i.dgc, nwgc := i.nwgc }
 
 /-- the life of an instance the reader has not seen yet -/
 def lifeOf : Option Inst → Life
   | some i => i.life
-  | none => { st := .alive, dgc := 0, nwgc := 0 }
+  | none => { st := .alive, viewNew := true, dgc := 0, nwgc := 0 }
 
 /-- one `update_state` is one step of the automaton -/
 theorem C22_update_refines (i : Inst) (k : Kind) (now : Option Nat) :
@@ -155,6 +157,48 @@ theorem C22_instance_state_refines (s : St) (w : Nat) (data : String) (k : Kind)
           (mkSample w data k h sts (gensOf h insts1).1 (gensOf h insts1).2) rts i' hf hidem
         exact ⟨i'', h1, h2.trans hl⟩
 
+theorem mem_insertAt_self (x : Sample) (n : Nat) (l : List Sample) : x ∈ insertAt x n l := by
+  induction l generalizing n with
+  | nil => cases n <;> simp [insertAt]
+  | cons y ys ih => cases n <;> simp [insertAt, ih]
+
+theorem mem_storeSample_self (q : Qos) (l : List Sample) (x : Sample) : x ∈ storeSample q l x := by
+  unfold storeSample
+  simp only []
+  split
+  · exact mem_insertAt_self ..
+  · simp
+
+/-- C22 (generation counts of a sample): a stored sample carries the generation counters of the generation it
+    was received in, i.e. the automaton's counters AFTER the step caused by the sample itself (the sample that
+    revives an instance already belongs to the new generation) -/
+theorem C22_sample_generation_counts (s : St) (w : Nat) (data : String) (k : Kind) (h : Nat) (sts : Option Nat)
+    (rts : Nat) (hadd : (addChange s w data k h sts rts).2 = .added) :
+    ∃ x ∈ (addChange s w data k h sts rts).1.samples, x.data = data ∧ x.inst = h ∧ x.kind = k ∧
+      x.dgc = (lifeStep (lifeOf (findInst h s.insts)) k).dgc ∧
+      x.nwgc = (lifeStep (lifeOf (findInst h s.insts)) k).nwgc := by
+  generalize hr : addChange s w data k h sts rts = r at hadd ⊢
+  unfold addChange at hr
+  split at hr
+  · subst hr; cases hadd
+  · rename_i insts1 ht
+    obtain ⟨i', hf, hl, _⟩ := touchInst_life s.insts h k rts insts1 ht
+    have hg : gensOf h insts1 = (i'.dgc, i'.nwgc) := by unfold gensOf; rw [hf]
+    simp only [] at hr
+    split at hr
+    · subst hr; cases hadd
+    · rename_i owns2 _
+      rcases afterOwnership_cases { s with insts := insts1 } owns2
+        (mkSample w data k h sts (gensOf h insts1).1 (gensOf h insts1).2) rts with ⟨_, hc⟩
+      rw [hr] at hc
+      rcases hc with ⟨h1, _⟩ | ⟨why, h1, _⟩ | ⟨_, h2, _⟩
+      · rw [hadd] at h1; cases h1
+      · rw [hadd] at h1; cases h1
+      · refine ⟨mkSample w data k h sts (gensOf h insts1).1 (gensOf h insts1).2, ?_, rfl, rfl, rfl, ?_, ?_⟩
+        · rw [h2]; exact mem_storeSample_self ..
+        · rw [hg, ← hl]; rfl
+        · rw [hg, ← hl]; rfl
+
 /-- C22 (error case): a dispose/unregister for an instance the reader does not know changes nothing -/
 theorem C22_unknown_not_alive_ignored (s : St) (w : Nat) (data : String) (k : Kind) (h : Nat) (sts : Option Nat)
     (rts : Nat) (he : (addChange s w data k h sts rts).2 = .error) :
@@ -176,15 +220,14 @@ theorem C22_markViewed (coll insts : List Inst) (i : Inst) (hi : i ∈ markViewe
   | some _ => simp only [hc] at hij; subst hij; simp
   | none => simp only [hc] at hij; subst hij; simp
 
-/-- as-is witness for finding D28 (view state): disposing a NOT_NEW instance makes it NEW -/
-theorem C22_view_new_on_dispose_counterexample :
-    (({ h := 1, viewNew := false, st := .alive, dgc := 0, nwgc := 0, lastRecv := 0 } : Inst).update .disposed none).viewNew
-      = true := by decide
-
-/-- as-is witness for finding D28 (view state): the rebirth of a NOT_NEW disposed instance leaves it NOT_NEW -/
-theorem C22_view_not_new_on_rebirth_counterexample :
-    (({ h := 1, viewNew := false, st := .disposed, dgc := 0, nwgc := 0, lastRecv := 0 } : Inst).update .alive none).viewNew
-      = false := by decide
+/-- regression witness for the repaired defect D28: the old `update_state` made a NOT_NEW instance NEW when it was
+    disposed and left it NOT_NEW when it was reborn; the repaired one does the opposite -/
+theorem C22_view_state_old_counterexample :
+    (({ h := 1, viewNew := false, st := .alive, dgc := 0, nwgc := 0, lastRecv := 0 } : Inst).updateOld .disposed none).viewNew = true ∧
+    (({ h := 1, viewNew := false, st := .disposed, dgc := 0, nwgc := 0, lastRecv := 0 } : Inst).updateOld .alive none).viewNew = false ∧
+    (({ h := 1, viewNew := false, st := .alive, dgc := 0, nwgc := 0, lastRecv := 0 } : Inst).update .disposed none).viewNew = false ∧
+    (({ h := 1, viewNew := false, st := .disposed, dgc := 0, nwgc := 0, lastRecv := 0 } : Inst).update .alive none).viewNew = true := by
+  decide
 
 /-- non-vacuity: write, dispose, write on one instance gives ALIVE with disposed_generation_count 1 -/
 example :
@@ -192,6 +235,6 @@ example :
                      exclusive := false, minSep := some 0 }
     let s := run (St.init q true) [.add 1 "a" .alive 5 (some 1) 1, .add 1 "" .disposed 5 (some 2) 2,
                                    .add 1 "b" .alive 5 (some 3) 3]
-    (findInst 5 s.insts).map Inst.life = some { st := .alive, dgc := 1, nwgc := 0 } := by decide
+    (findInst 5 s.insts).map Inst.life = some { st := .alive, viewNew := true, dgc := 1, nwgc := 0 } := by decide
 
 end DustVerif.Hist
